@@ -513,9 +513,12 @@ def foreign_text(rng, header=True, max_cats=3):
             return v
         if rng.random() < 0.5:
             lines.append(rng.choice(["loop_", "loop_", "loop_ ", " loop_"]))
-            for key in keys:
+            lkeys = list(keys)
+            if rng.random() < 0.08:
+                lkeys.insert(rng.randrange(len(lkeys) + 1), rng.choice(keys))    # a repeated column name
+            for key in lkeys:
                 lines.append("_" + cn + "." + key + rng.choice(["", " ", "  "]))
-            toks = [tok() for _ in range(k * rng.randint(0, 3) + (1 if rng.random() < 0.1 else 0))]
+            toks = [tok() for _ in range(len(lkeys) * rng.randint(0, 3) + (1 if rng.random() < 0.1 else 0))]
             while toks:
                 n = rng.randint(1, max(1, k + 1))
                 row, toks = toks[:n], toks[n:]
